@@ -13,6 +13,22 @@ CHECKS = {
    design_ref='DESIGN.md par.5 C01',
    note='CrossHair/z3 semantics of CPython; hash functions collision-free; st_size is the true '
         'size or 0; tree shapes are the listed scenarios'),
+ 'C02': dict(
+   text='Every lookup/verification API is run on Manifest chains of depth 3 (quick) / 4 '
+        '(thorough) in which every Manifest file\'s (size,digest) and every MANIFEST entry\'s '
+        '(size,digest) are independent symbols; a ghost log shows that no Manifest is parsed '
+        'unless its link from an accepted parent matches, a broken link raises ManifestMismatch '
+        'naming it, and with intact links results equal the oracle.',
+   design_ref='DESIGN.md par.5 C02',
+   note='model filesystem; Manifest parsing replaced by entry objects; compression by name only; '
+        'collision-free hashes; depth <= 4'),
+ 'C07': dict(
+   text='Keep-going verification on model trees with a symbolic choice of discrepancy per listed '
+        'file, stray bits, a missing directory and a symbolic handler policy: the multiset of '
+        'reported paths equals the oracle\'s offending set and the result is False iff some '
+        'handler call returned False; exhausted over all combinations within the scenario.',
+   design_ref='DESIGN.md par.5 C07',
+   note='model filesystem; <=3 directories; handler policies by call position'),
 }
 
 NOT_APPLICABLE = {
